@@ -16,12 +16,14 @@
 pub mod util;
 pub mod c02;
 pub mod c13;
+pub mod c13watch;
 pub mod c15;
 pub mod c17;
 pub mod probe;
 
 pub use c02::*;
 pub use c13::*;
+pub use c13watch::*;
 pub use c15::*;
 pub use c17::*;
 
